@@ -10,6 +10,45 @@ import time
 
 ROOT = os.path.dirname(os.path.dirname(os.path.dirname(os.path.abspath(__file__))))
 LEAN_DIR = os.path.join(ROOT, "lean")
+_OVERLAY = [None]
+
+
+def experiment():
+    """the check is pointed at a scratch copy of the repository (a seeded change is being tried)"""
+    return os.path.realpath(os.environ.get("VERIF_REPO", "/repo")) != "/repo"
+
+
+def use_overlay():
+    """Experiments must not rewrite the generated Lean files of the real project (other checks build from
+    them at the same time): the process switches to a private copy of the Lean project, build output
+    included, which is removed when the process exits."""
+    global LEAN_DIR, DRIVER_EXE
+    if _OVERLAY[0] is None:
+        import atexit
+        import shutil
+        with Lock():
+            d = tempfile.mkdtemp(prefix="vh-lean-")
+            dst = os.path.join(d, "lean")
+            shutil.copytree(LEAN_DIR, dst, symlinks=True, ignore=shutil.ignore_patterns("verif-build.lock"))
+        _OVERLAY[0] = d
+        LEAN_DIR = dst
+        DRIVER_EXE = os.path.join(LEAN_DIR, ".lake", "build", "bin", "driver")
+        atexit.register(lambda: shutil.rmtree(d, ignore_errors=True))
+    return LEAN_DIR
+
+
+def write_generated(rel, text):
+    """write a regenerated Lean file if its text changed; returns True if it did"""
+    path = os.path.join(LEAN_DIR, rel)
+    old = open(path).read() if os.path.exists(path) else ""
+    if old == text:
+        return False
+    if experiment():
+        path = os.path.join(use_overlay(), rel)
+    with Lock():
+        with open(path, "w") as f:
+            f.write(text)
+    return True
 ALLOWED_AXIOMS = {"propext", "Classical.choice", "Quot.sound"}
 FORBIDDEN = re.compile(
     r"\bsorry\b|\badmit\b|^axiom\s|\bnative_decide\b|\bbv_decide\b|implemented_by|\bunsafe\s|maxHeartbeats\s+0\b",
